@@ -28,6 +28,28 @@ class Outcome:
         return 'Outcome(%r)' % (self.value if self.exc is None else self.exc,)
 
 
+def install_k1_probe(ctx, mods):
+    """Record (monkey-patch, no source change) when _AdbPacketStore.put drops a CLSE because the pair has no entry (K1)."""
+    cls = mods.hidden_helpers._AdbPacketStore
+    if not hasattr(cls, '_sx_orig_put'):
+        cls._sx_orig_put = cls.put
+    orig = cls._sx_orig_put
+    CLSE = b'CLSE'
+
+    def put(self, arg0, arg1, cmd, data):
+        if cmd == CLSE:
+            before = len(self._dict.get(arg1, {}) if arg1 in self._dict else {})
+            known = arg1 in self._dict and arg0 in self._dict[arg1]
+            if not known:
+                ctx.event('K1: CLSE for pair (remote %s, local %s) dropped by _AdbPacketStore.put (no entry)' % (_short(arg0), _short(arg1)))
+        return orig(self, arg0, arg1, cmd, data)
+    cls.put = put
+
+
+def _short(v):
+    return 'sym' if isinstance(v, SymInt) else str(v)
+
+
 class World:
     def __init__(self, ctx, mods, device, impl='sync', frag=None, short_write=None, fault=None, default_timeout=None, banner=b'host',
                  clock=None, vfs=None, budget=4000, yield_hook=None):
@@ -42,6 +64,7 @@ class World:
         mods.set_global('os', self.vfs.os_module())
         mods.set_global('aiofiles', self.vfs.aiofiles_module())
         mods.set_global('get_running_loop', env.get_running_loop_stub)
+        install_k1_probe(ctx, mods)
         MemT, MemTA = transports(mods)
         self.wire = env.Wire(ctx, device, self.clock, mods.exceptions.TcpTimeoutException, frag=frag, short_write=short_write, fault=fault,
                              budget=budget, yield_hook=yield_hook)
@@ -139,7 +162,7 @@ class Std:
     """A reactive device with symbolic content: shell outputs, a sync file system, symbolic remote ids."""
 
     def __init__(self, ctx, maxdata=4096, sym_rid=True, packetize=None, fail=None, bad_id=None, auth=None, pick=None, gate=None, monitor=None,
-                 shell_outs=None, rid_base=None):
+                 shell_outs=None, rid_base=None, reorder=None):
         self.ctx = ctx
         self.fs = sim.SyncFS()
         self.shell_outs = shell_outs or {}
@@ -178,7 +201,7 @@ class Std:
                     return sim.OutputService(outs)
             return None
 
-        self.dev = sim.SimDevice(ctx, services, maxdata=maxdata, auth=auth, rid_alloc=rid_alloc, pick=pick, gate=gate, monitor=monitor)
+        self.dev = sim.SimDevice(ctx, services, maxdata=maxdata, auth=auth, rid_alloc=rid_alloc, pick=pick, gate=gate, monitor=monitor, reorder=reorder)
 
 
 def sym_content(ctx, name, size, sym_positions):
